@@ -37,7 +37,16 @@ type Options struct {
 	Once     bool      // run exactly one execution (replay)
 	Trace    bool      // keep the event log of every execution (else only on violation)
 	Merge    bool      // merge prefixes with equal happens-before signature (state.go)
+	// Arrive: a blocking operation on an unbuffered channel is split into "arrive" and "park":
+	// a thread that is about to receive is not yet a parked receiver.  The difference is
+	// observable only by non-blocking operations (select with default) on such a channel, so the
+	// mode is switched on by Explore itself the first time an execution performs one (the
+	// exploration restarts); replays carry it as a leading ArriveMarker in the choice list.
+	Arrive bool
 }
+
+// ArriveMarker as first element of a choice list selects Options.Arrive on replay.
+const ArriveMarker = -7
 
 // Execution is what one run of the body looked like.
 type Execution struct {
@@ -51,10 +60,13 @@ type Execution struct {
 	Leaked   []string // set by WaitQuiescent
 	Problems []string // oracle complaints recorded while running (core.Problem)
 	Pruned   bool     // cut short: reached a state already expanded (Merge)
-	Log      []string
-	log      []logEntry
-	VTime    int64 // final virtual time (ns)
-	Threads  int
+	// NeedArrive: this execution did a non-blocking send (or a non-blocking receive while sends
+	// exist) on an unbuffered channel, so Options.Arrive matters for it
+	NeedArrive bool
+	Log        []string
+	log        []logEntry
+	VTime      int64 // final virtual time (ns)
+	Threads    int
 }
 
 // Violation is a property failure on one execution.
@@ -67,6 +79,7 @@ type Violation struct {
 
 // Stats summarises an exploration.
 type Stats struct {
+	ArriveMode    bool // explored with Options.Arrive (see there)
 	Executions    int64
 	Transitions   int64         // scheduling steps + choice points executed
 	TreeNodes     int64         // distinct choice-tree prefixes visited (states of the unfolded execution tree)
@@ -266,7 +279,11 @@ func CurrentExploration() string {
 
 func Explore(opts Options, body func(), check func(x *Execution) (outcome string, problems []string)) *Stats {
 	curExploration.Store(opts.Name)
-	st := &Stats{ByCost: map[int]int64{}, Outcomes: map[string]int64{}}
+	if len(opts.Prefix) > 0 && opts.Prefix[0] == ArriveMarker {
+		opts.Arrive = true
+		opts.Prefix = opts.Prefix[1:]
+	}
+	st := &Stats{ByCost: map[int]int64{}, Outcomes: map[string]int64{}, ArriveMode: opts.Arrive}
 	prefix := append([]int(nil), opts.Prefix...)
 	floor := len(prefix)
 	var prevSig []uint64
@@ -283,6 +300,15 @@ func Explore(opts Options, body func(), check func(x *Execution) (outcome string
 			x.Choices[i] = p.choice
 		}
 		x.Cost = e.cost
+		if x.NeedArrive && !opts.Arrive && !opts.Once {
+			// everything explored so far is real, but a receiver that has not parked yet was
+			// never distinguished from a parked one: start over with the finer model
+			opts.Arrive = true
+			return Explore(opts, body, check)
+		}
+		if opts.Arrive {
+			x.Choices = append([]int{ArriveMarker}, x.Choices...)
+		}
 		st.Executions++
 		st.Transitions += int64(x.Steps + len(e.pts))
 		if st.Executions == 1 {
